@@ -16,6 +16,7 @@ import MitmVerif.Lemmas.C35Str
 import MitmVerif.Lemmas.C25
 import MitmVerif.Lemmas.C22Render
 import MitmVerif.Lemmas.C50V6
+import MitmVerif.Model.C50_All
 import MitmVerif.Props.C49
 import Std.Data.String.ToNat
 namespace MitmVerif.Props.C50
@@ -1099,4 +1100,106 @@ example : ∃ env : Env,
       simp only [ho.1, ho.2.1, ho.2.2, if_false]
       decide⟩
 
+end MitmVerif.Props.C50
+
+/-! ### the HTTPS transcription connected to the record codec: no codec law is assumed any more -/
+namespace MitmVerif.Props.C50
+open MitmVerif MitmVerif.C49 MitmVerif.C50 MitmVerif.C50.Codecs MitmVerif.C50.Https
+
+/-- the HTTPS branch satisfies the codec laws: `dec_enc` is `https_reencode_exact`, `strict_rejects` holds because a string
+    is not a JSON object.  Hypotheses: the domain-name law (`NameLaw`) and that the opaque object code can be read back. -/
+theorem https_codec_laws (N : NameCodec) (LN : NameLaw N) (K : ObjCode) (hK : ∀ j, K.decode (K.code j) = some j) :
+    CodecLaws (httpsCodec N K) where
+  dec_enc := by
+    intro t b j h
+    simp only [httpsCodec] at h ⊢
+    by_cases h65 : t = 65
+    · simp only [h65, if_true] at h ⊢
+      cases hu : unpack N b with
+      | none => simp [hu] at h
+      | some r =>
+        simp only [hu, Option.map_some, Option.some.injEq] at h
+        subst h
+        have hre := https_reencode_exact N LN b r hu
+        simp only [reencode, hu] at hre
+        simp only [hK, Option.bind_some]
+        exact hre
+    · simp [h65] at h
+  strict_rejects := by
+    intro t tn b _
+    simp only [httpsCodec]
+    split <;> rfl
+
+/-- **no codec law assumed**: the codec with every type-specific branch transcribed (A, AAAA, NS, CNAME, PTR, TXT, HTTPS) -/
+theorem all_transcribed_codec_laws (I : C25.Idna) (N : NameCodec) (LN : NameLaw N) (K : ObjCode)
+    (hK : ∀ j, K.decode (K.code j) = some j) : CodecLawsT (realCodecAll I N K) :=
+  transcribed_codec_laws_6 I (httpsCodec N K) (https_codec_laws N LN K hK)
+
+/-- **C50 (DNS view round trip, every record codec transcribed).** `dns_view_roundtrip_transcribed_6` with the HTTPS part
+    instantiated by the transcription of https_records.py.  What is left as hypothesis: the three guards (clean YAML text, YAML
+    load∘dump on this JSON value, representable records), the law of the domain-name codec used inside HTTPS rdata (`NameLaw`,
+    which `name_dec_enc` proves for C25's codec in its own types), and that the object code is readable. -/
+theorem dns_view_roundtrip_all_transcribed (Y : Yaml) (I : C25.Idna) (N : NameCodec) (LN : NameLaw N) (K : ObjCode)
+    (hK : ∀ j, K.decode (K.code j) = some j) (m : Msg)
+    (hclean : Clean (Y.dump (toJson (realCodecAll I N K) m)))
+    (hload : (Y.load (Y.dump (toJson (realCodecAll I N K) m))).bind (fromJson (realCodecAll I N K)) =
+      fromJson (realCodecAll I N K) (toJson (realCodecAll I N K) m))
+    (hrep : ∀ r, (r ∈ m.an ∨ r ∈ m.ns ∨ r ∈ m.ar) → Representable (realCodecAll I N K) r) :
+    reencodeDns Y (realCodecAll I N K) (prettifyDns Y (realCodecAll I N K) m) = some { m with z := 0 } := by
+  unfold reencodeDns prettifyDns prettifyText
+  simp only [Bool.false_eq_true, if_false]
+  rw [escape_identity_on_clean _ hclean, hload]
+  exact dns_json_roundtrip_partial_T _ (all_transcribed_codec_laws I N LN K hK) m hrep
+
+end MitmVerif.Props.C50
+
+/-! ### the hypothesis "the object code can be read back" is satisfiable: a concrete length-prefixed code -/
+namespace MitmVerif.Props.C50
+open MitmVerif MitmVerif.C50 MitmVerif.C50.Codecs MitmVerif.C50.Https
+
+private theorem decodeList_code (v rest : List Nat) : decodeList (codeList v ++ rest) = some (v, rest) := by
+  simp [decodeList, codeList]
+
+private theorem decodeKey_code (k : JKey) (rest : List Nat) : decodeKey (codeKey k ++ rest) = some (k, rest) := by
+  cases k with
+  | name s =>
+    have hid : List.map (Char.ofNat ∘ Char.toNat) s.toList = s.toList := by
+      simp [Function.comp_def]
+    simp [codeKey, decodeKey, decodeList_code, List.map_map, hid]
+  | num n => simp [codeKey, decodeKey]
+
+private theorem decodeParams_code : ∀ (ps : List (JKey × Bytes)) (rest : List Nat),
+    decodeParams ps.length (ps.flatMap codeParam ++ rest) = some (ps, rest) := by
+  intro ps
+  induction ps with
+  | nil => intro rest; simp [decodeParams]
+  | cons kv r ih =>
+    intro rest
+    obtain ⟨k, v⟩ := kv
+    simp only [List.length_cons, List.flatMap_cons, codeParam, List.append_assoc, decodeParams, decodeKey_code,
+      decodeList_code, ih]
+    simp [List.map_map, Function.comp_def]
+
+/-- the concrete code reads back every JSON object -/
+theorem listObjCode_readable (j : J) : listObjCode.decode (listObjCode.code j) = some j := by
+  obtain ⟨target, pri, ps⟩ := j
+  simp only [listObjCode, codeJ, decodeJ]
+  rw [decodeList_code]
+  simp only [decodeParams_code ps [] |> (by simpa using ·)]
+  by_cases h : 0 ≤ pri
+  · simp [h, Int.natAbs_of_nonneg h]
+  · have hneg : pri < 0 := by omega
+    simp [h]
+    omega
+
+end MitmVerif.Props.C50
+
+namespace MitmVerif.Props.C50
+open MitmVerif MitmVerif.C50 MitmVerif.C50.Codecs MitmVerif.C50.Https
+-- the hypotheses of `all_transcribed_codec_laws` / `dns_view_roundtrip_all_transcribed` about N and K are satisfiable
+example : ∃ (N : NameCodec) (K : ObjCode), NameLaw N ∧ ∀ j, K.decode (K.code j) = some j :=
+  ⟨⟨fun _ => none, fun _ => none⟩, listObjCode, ⟨by intro b s rest h; cases h⟩, listObjCode_readable⟩
+-- and the HTTPS branch of the plugged-in codec does decode and restore a record (priority 0xffff, port, alpn)
+example : (httpsCodec asciiCodec listObjCode).dec 65 [0xff, 0xff, 1, 0x61, 0, 0, 3, 0, 2, 1, 0xbb, 0, 1, 0, 3, 2, 0x68, 0x32] ≠ none := by
+  decide +kernel
 end MitmVerif.Props.C50
